@@ -343,7 +343,41 @@ def run_case(prop, name, spec, confkw, tier, src):
     return out
 
 
+def _has_hash_container(spec):
+    if spec.get('c') in ('set', 'frozenset', 'USet', 'dict_keys'):
+        return len(spec.get('items', [])) >= 2 or any(_has_hash_container(i) for i in spec.get('items', []))
+    kids = list(spec.get('items', [])) + [x for pr in spec.get('pairs', []) for x in pr]
+    return any(_has_hash_container(k) for k in kids)
+
+
+def _shift_ints(spec, k):
+    """Same shape, other int payloads (unpinned leaves only): changes the iteration order of hash
+    containers, which the model fixes but CPython derives from the hashes."""
+    s = dict(spec)
+    if s.get('c') == 'int' and not s.get('pin') and 'v' in s:
+        s['v'] = s['v'] + 7 * k
+    if 'items' in s:
+        s['items'] = [_shift_ints(i, k) for i in s['items']]
+    if 'pairs' in s:
+        s['pairs'] = [[_shift_ints(a, k), _shift_ints(b, k)] for a, b in s['pairs']]
+    return s
+
+
 def replay_c20(p):
+    """A model whose object contains a set-like container with several items fixes an iteration
+    order that a rebuilt CPython set need not have: the replay is repeated with other (free) int
+    payloads until the order matches or 12 variants are used up."""
+    ok, detail = _replay_c20(p)
+    if ok or p.get('kind') == 'c20_cyclic' or not _has_hash_container(p.get('obj', {})):
+        return ok, detail
+    for k in range(1, 13):
+        ok2, detail2 = _replay_c20(dict(p, obj=_shift_ints(p['obj'], k)))
+        if ok2:
+            return ok2, detail2 + f' (int payloads shifted by {7 * k} to obtain the iteration order of the model)'
+    return ok, detail
+
+
+def _replay_c20(p):
     from beartype.bite import infer_hint
     from beartype.door import is_bearable
     from .drawpin import PIN
